@@ -29,12 +29,17 @@ def make_root(name):
 ROOTS = ('objs', 'cbs', 'plainmid', 'hyper')
 
 
+_ST_MKVAL = st.mkval      # the symtree decoder (apply() swaps st.mkval for the duration of a call)
+
+
 def mkval(world, tok):
+  if isinstance(tok, tuple) and tok and tok[0] == 'ins':
+    return pg.Insertion(mkval(world, tok[1]))
   if tok == 'hyper':
     return pg.oneof([1, 2])
   if tok == 'obs':
     return fx.Obs.partial(x=0)
-  return st.mkval(world, tok)
+  return _ST_MKVAL(world, tok)
 
 
 def derived(node):
@@ -113,6 +118,8 @@ class NotifySpace(statespace.Space):
       return []
     ops = st.menu(w, self.vals, modes=self.modes, node_vals=False, with_copy=False, rich=self.rich)
     ops = [o for o in ops if o[1] not in ('imul',) and o[0] != 'noparents']
+    # inserting the absence marker itself (pg.Insertion(MISSING_VALUE)) is a misuse, not an ordinary mutation
+    ops = [o for o in ops if not (o[1] == 'rebind' and any(v == ('ins', 'MISSING') for _, v in o[4]))]
     # batched deep rebinds from the root: two paths under one container / under different ones
     leaves = []
     for keys, node, _, _ in st.walk(root):
@@ -186,7 +193,11 @@ class NotifySpace(statespace.Space):
             rec.viol(f'duplicate-event/{base}', f'{op!r}: receiver at {pre_nodes[nid][0]} got {c} events for one call', trace)
             bad = True
         if changed:
+          real = min_diffs(pre_map, post_map)
           for nid, node in expected.items():
+            rk = tuple(pre_nodes[nid][0])
+            if not any(d[:len(rk)] == rk for d in real):
+              continue        # nothing changed below this subscriber (e.g. a batch item that re-assigns the stored value)
             if counts.get(nid, 0) == 0:
               rec.viol(f'missing-event/{base}', f'{op!r} changed the tree but subscriber at {pre_nodes[nid][0]} '
                        f'({type(node).__name__}) got no event', trace)
@@ -211,8 +222,11 @@ class NotifySpace(statespace.Space):
         for n, payload in changes:
           rkeys = pre_nodes[id(n)][0]
           reported = []
+          shifty = set()       # lists in which this call inserted or deleted an element: later siblings move
           for rel, u in payload.items():
             ab = tuple(u.path.keys)
+            if ab and isinstance(ab[-1], int) and (MISSING == u.old_value or MISSING == u.new_value):
+              shifty.add(ab[:-1])
             if tuple(rkeys) + tuple(rel.keys) != ab:
               rec.viol(f'payload-relative-path/{base}', f'{op!r}: receiver at {rkeys} got relative path {rel!r} for '
                        f'update at {u.path!r}', trace)
@@ -239,12 +253,35 @@ class NotifySpace(statespace.Space):
             if d[:len(rkeys)] != tuple(rkeys):
               continue
             ok = any(d[:len(p)] == p or (len(p) >= 1 and d[:len(p) - 1] == p[:-1] and _is_list_shift(pre_map, post_map, p))
-                     for p in reported)
+                     for p in reported) or any(d[:len(par)] == par for par in shifty)
             if not ok:
               rec.viol(f'payload-missing-location/{base}', f'{op!r}: location {d} changed but receiver at {rkeys} '
                        f'was told only about {reported}', trace)
               bad = True
               break
+    # a node the call removed from the tree is nobody's child any more: changing it later must not reach the tree
+    post_ids = {id(n) for _, n, _, _ in st.walk(root)}
+    removed = [(keys, n) for keys, n in pre_nodes.values() if id(n) not in post_ids]
+    for keys, n in removed[:4]:
+      fx.LOG.clear()
+      try:
+        if isinstance(n, pg.List):
+          n.append(0)
+        elif isinstance(n, pg.Dict) and n.value_spec is None:
+          n['probe_'] = 0
+        elif isinstance(n, (fx.Obs, fx.ObsNoSuper)):
+          n.rebind(r=12345, raise_on_no_change=False)
+        else:
+          continue
+      except Exception:  # pylint: disable=broad-except
+        continue
+      leaked = [(k, m) for k, m, _ in fx.LOG if k == 'change' and id(m) in post_ids]
+      fx.LOG.clear()
+      if leaked:
+        rec.viol(f'event-from-removed-node/{base}', f'{op!r} removed the node at {keys}; changing that node afterwards delivered '
+                 f'{len(leaked)} change event(s) to nodes still in the tree', trace)
+        bad = True
+        break
     # freshness (ordinary mutations only)
     if op[0] == '' and not bad:
       got = derived_all(root)
@@ -276,12 +313,57 @@ def _is_list_shift(pre_map, post_map, p):
       != sum(1 for k in post_map if k[:-1] == parent and len(k) == len(p)))
 
 
+def inherit_item(rec, order):
+  """Handler lookup per class: a class hierarchy (base without handler, subclasses with / inheriting one) notified in every
+  order of first use; each handler receives exactly the updates, whatever class was notified first."""
+  log = []
+
+  class Plain(pg.Object):
+    x: int = 0
+    allow_symbolic_assignment = True
+
+  class Watched(Plain):
+    def _on_change(self, field_updates):
+      log.append(('Watched', self, dict(field_updates)))
+      super()._on_change(field_updates)
+
+  class Inherits(Watched):
+    pass
+
+  class Sibling(Plain):
+    def _on_change(self, field_updates):
+      log.append(('Sibling', self, dict(field_updates)))
+
+  classes = dict(Plain=Plain, Watched=Watched, Inherits=Inherits, Sibling=Sibling)
+  handler = dict(Plain=None, Watched='Watched', Inherits='Watched', Sibling='Sibling')
+  tr = dict(kind='inherit', order=list(order))
+  rec.evals += 1
+  rec.trans += len(order)
+  ok = True
+  for rnd in (0, 1):
+    for name in order:
+      obj = classes[name](x=rnd)
+      host = pg.Dict(o=obj)
+      del log[:]
+      host.rebind({'o.x': 5 + rnd})
+      got = [(tag, sorted(str(k) for k in u), [(v.old_value, v.new_value) for v in u.values()]) for tag, who, u in log if who is obj]
+      want = [] if handler[name] is None else [(handler[name], ['x'], [(rnd, 5 + rnd)])]
+      if got != want:
+        rec.viol(f'handler-payload-depends-on-class-order/{name}', f'first-use order {list(order)} (round {rnd}): a {name} instance '
+                 f'changed x {rnd}->{5 + rnd}; its handler log is {got!r}, expected {want!r}', tr)
+        ok = False
+  if ok:
+    rec.nt(('inherit', tuple(order)))
+
+
 def run(ctx):
+  import itertools
+  ctx.pmap(inherit_item, list(itertools.permutations(('Plain', 'Watched', 'Inherits', 'Sibling'))), chunk=4)
   ctx.rule = ('explicit-state BFS over trees mixing objects with overridden _on_change (with and without super call), '
               'dicts/lists with callbacks, plain containers in between and hyper placeholders; every menu operation at '
               'every node, batched deep rebinds with 1-3 paths, each with notifications on / off / skipped; per call: '
               'exactly-once per affected subscriber, nobody else, children first, payload vs pre/post snapshots, '
-              '_on_bound once; derived facts of every node vs a fresh deep copy after every ordinary step; '
+              '_on_bound once; a node removed by the call no longer notifies the tree when changed; handler lookup for a class hierarchy in all 24 first-use orders; derived facts of every node vs a fresh deep copy after every ordinary step; '
               'distinct_nontrivial = distinct passing (mode, op, container, outcome, #events, node) tuples')
   vals = (0, 'sd', 'pl', 'hyper', 'MISSING')
   if ctx.thorough:
@@ -303,5 +385,7 @@ def run(ctx):
 
 
 def replay(rec, data):
+  if data.get('kind') == 'inherit':
+    return inherit_item(rec, tuple(data['order']))
   sp = NotifySpace([tuple(data['init'])], (), st.MODES)
   statespace.replay_trace(sp, rec, dict(data, init=tuple(data['init'])))
